@@ -958,6 +958,10 @@ func (ec *evalCtx) call(x *CCall) (TV, error) {
 			intT := types.Typ[types.Int]
 			switch t := v.Ty.Underlying().(type) {
 			case *types.Slice:
+				if ec.binders == 0 {
+					// type invariant of every Go slice value: 0 <= len <= cap
+					c.assumeG(c.sliceWF(v.T))
+				}
 				if id.Name == "len" {
 					return TV{T: c.slLen(v.T), Ty: intT}, nil
 				}
